@@ -38,7 +38,10 @@ def main():
     ok = False
     try:
         demo_src = os.path.join(src, demo_rel)
-        demo_dst = os.path.join(wt, dest, "zz_seed_" + os.path.basename(demo_rel))
+        base = os.path.basename(demo_rel).lstrip("_")
+        if base.endswith(".txt"):
+            base = base[:-4]
+        demo_dst = os.path.join(wt, dest, "zz_seed_" + base)
         shutil.copy(demo_src, demo_dst)
         cmd = ["go", "test", "-vet=off", "-count=1"] + targs
         r1 = sh(cmd, cwd=wt)
